@@ -1,6 +1,7 @@
 import H2T.Lemmas.FitsBlock
 import H2T.Lemmas.MarksTree
 import H2T.Lemmas.MarkSafe
+import H2T.Lemmas.MarksTable
 
 /-! # C14 — every id with visible content yields one fragment marker at its content
 
@@ -20,8 +21,10 @@ markers `into_lines` can drop is bounded by `ub` (markers in `pending_frags` unl
 markers of a pending word without text); text with a visible character takes `ub` to 0 and afterwards it grows by at most
 one per recorded marker — so in a table-free program `a ++ [text x] ++ b` every marker held after `a` is returned, at the
 front of the output's markers (`marker_before_visible_text_is_kept`, `flat_markers_before_text_are_kept`), and likewise
-inside a block quote, heading, list item or `dd` (`sub_markers_before_text_are_kept`).  Position relative to the first
-character and tables over whole documents are decided by
+inside a block quote, heading, list item or `dd` (`sub_markers_before_text_are_kept`).  **Tables included, no marker is invented or duplicated** (`no_marker_duplicated`, `Lemmas/MarksTable`): for every render tree —
+tables, nested tables, stacked rows, border collapsing — every marker name occurs in the output at most as often as the tree
+holds a fragment node of that name; with distinct ids, at most once.  Position relative to the first
+character and presence of markers in tables over whole documents are decided by
 correspondence and the search oracle; two situations in which a marker is lost or an id changes the layout are
 known findings. -/
 
@@ -176,5 +179,25 @@ theorem paragraph_id_is_kept (cfg : Cfg) (d : Deco) (w : Nat) (n x : List Ch) (l
   have hc : compile cfg d (.box {} .block [.frag n, .text {} x]) = [Op.startBlock, Op.frag n] ++ [Op.text x] ++ [Op.endBlock] := by
     simp [compile, compileList, styleOpen, styleClose]
   exact flat_markers_before_text_are_kept cfg d w _ ls (by simp [noTable, noTableL]) _ _ x hc hk (by simp [flatOps, flatOp]) h
+
+/-! ## tables -/
+
+/-- **no marker is invented or duplicated — tables included**: for every render tree (tables, nested tables, stacked rows,
+    border collapsing, footnote block), every configuration, decorator and width: a marker name occurs in the returned lines
+    at most as often as the tree holds a fragment node of that name -/
+theorem no_marker_duplicated (n : List Ch) (cfg : Cfg) (d : Deco) (w : Nat) (tree : RNode) (ls : List RLine)
+    (h : renderTree cfg d w tree = .ok ls) : (ls.flatMap rmarks).count n ≤ (treeFrags tree).count n :=
+  renderTree_fragcnt_tree n cfg d w tree ls h
+
+/-- with distinct ids every marker appears at most once -/
+theorem distinct_ids_at_most_once (n : List Ch) (cfg : Cfg) (d : Deco) (w : Nat) (tree : RNode) (ls : List RLine)
+    (hd : (treeFrags tree).Nodup) (h : renderTree cfg d w tree = .ok ls) : (ls.flatMap rmarks).count n ≤ 1 :=
+  Nat.le_trans (no_marker_duplicated n cfg d w tree ls h) (List.nodup_iff_count.mp hd n)
+
+/-- a row — side by side or stacked — hands on at most the markers its cells hold -/
+theorem row_adds_at_most_its_cells_markers (n : List Ch) (s s' : SubR) (cfg : Cfg) (vert : Bool) (subs : List SubR) (hm : s.MOk)
+    (hcm : ∀ col ∈ subs, col.MOk) (h : s.appendRow cfg vert subs = .ok s') :
+    s'.marks.count n ≤ s.marks.count n + (subs.map fun col => col.marks.count n).sum :=
+  (appendRow_marks n s s' cfg vert subs hm hcm h).1
 
 end H2T.C14
